@@ -66,7 +66,7 @@ Lemma cv_property_eq ev path io num n rq op f :
   | FArray it =>
       obind (cv_item ev path (camel n) it) (fun c =>
         finish io rq op (snake n) n num c LRepeated (fc_type c) (fc_tname c) (fc_msgs c)
-               (fc_imports c ++ if fc_validate c then [imp_validate] else []))
+               (imp_ext :: fc_imports c ++ if fc_validate c then [imp_validate] else []))
   | FMap it =>
       obind (cv_item ev path (camel n) it) (fun c =>
         if io then Err "map entry outside its message" else
